@@ -44,6 +44,8 @@ func main() {
 		code = scenarioDialog()
 	case "affinity":
 		code = scenarioAffinity()
+	case "hostile":
+		code = scenarioHostile()
 	case "pintime":
 		code = scenarioPinTime()
 	default:
